@@ -185,7 +185,15 @@ func (o *objectGoMapReflect) defineOwnPropertyStr(name unistring.String, descr P
 		return false
 	}
 
-	return o._put(o.strToKey(name.String(), throw), descr.Value, throw)
+	key := o.strToKey(name.String(), throw)
+	if descr.Value == nil {
+		// no [[Value]] in the descriptor: an existing property keeps its value, a new one is undefined
+		if key.IsValid() && o.fieldsValue.MapIndex(key).IsValid() {
+			return true
+		}
+		descr.Value = _undefined
+	}
+	return o._put(key, descr.Value, throw)
 }
 
 func (o *objectGoMapReflect) defineOwnPropertyIdx(idx valueInt, descr PropertyDescriptor, throw bool) bool {
@@ -193,7 +201,14 @@ func (o *objectGoMapReflect) defineOwnPropertyIdx(idx valueInt, descr PropertyDe
 		return false
 	}
 
-	return o._put(o.toKey(idx, throw), descr.Value, throw)
+	key := o.toKey(idx, throw)
+	if descr.Value == nil {
+		if key.IsValid() && o.fieldsValue.MapIndex(key).IsValid() {
+			return true
+		}
+		descr.Value = _undefined
+	}
+	return o._put(key, descr.Value, throw)
 }
 
 func (o *objectGoMapReflect) hasOwnPropertyStr(name unistring.String) bool {
